@@ -10,7 +10,7 @@ from .c21 import build_devices
 PROPERTY = "C19"
 LEVEL = "exploration"
 SCENARIOS = {"two-paths": 1}
-TIERS = {"quick": {"runs": 8000, "chunk": 15}, "thorough": {"runs": 150000, "chunk": 80}}
+TIERS = {"quick": {"runs": 8000, "chunk": 15}, "thorough": {"runs": 50000000, "wall_s": 600, "chunk": 80, "recheck": 16}}
 RULE = ("one run = a tape-generated terminal set (1-4 terminals, FMMU/direct) with bit and "
         "byte variables of all formats linked into 1-3 generated devices, instantiated once "
         "in a slow SyncGroup (Python path: Device.update on current_data) and once in a "
